@@ -40,3 +40,39 @@ Example C18_example_reject :
   decide {| f_file := false; f_stdin := false; f_out := true; f_encrypt := false; f_regexp := false; f_fieldnames := false;
             f_proj := false; f_cluster := false; f_pub := false; f_priv := false; f_start := true; f_end := true; f_env := true |} = CReject 7.
 Proof. reflexivity. Qed.
+
+(* ---------- the values behind the switches ---------- *)
+(* main.go tests values (non-empty string, non-zero date, len(args) == 1); [abstract] is that reading. Whatever the values:
+   a rejection has no side effects, a file argument counts as an input source even when it is the empty string, and a
+   start or end date given alone is rejected whatever its sign. *)
+Theorem C18_raw_reject_no_effects : forall r n, decide_raw r = CReject n -> effects_raw r = [].
+Proof. intros r n. apply C18_reject_no_effects. Qed.
+Print Assumptions C18_raw_reject_no_effects.
+
+Theorem C18_raw_eq_rules : forall r, accepted (decide_raw r) = rule_table (abstract r).
+Proof. intros r. apply C18_decide_eq_rules. Qed.
+Print Assumptions C18_raw_eq_rules.
+
+Lemma file_and_other_rejected : forall f, f_file f = true -> (f_stdin f = true \/ atlas_set f = true) -> exists n, decide f = CReject n.
+Proof.
+  intros [[] [] [] [] [] [] [] [] [] [] [] [] []] Ef Es; cbn in Ef, Es; try discriminate Ef;
+    try (destruct Es as [Es|Es]; discriminate Es); eexists; reflexivity.
+Qed.
+
+Theorem C18_empty_file_argument_is_a_source : forall r,
+  r_file r <> SAbsent -> (r_stdin r = true \/ atlas_set (abstract r) = true) -> exists n, decide_raw r = CReject n.
+Proof.
+  intros r Hf Hs. unfold decide_raw. apply file_and_other_rejected; [|exact Hs].
+  cbn. destruct (r_file r); [contradiction | reflexivity | reflexivity].
+Qed.
+Print Assumptions C18_empty_file_argument_is_a_source.
+
+Lemma lone_date_rejected : forall f, f_start f <> f_end f -> exists n, decide f = CReject n.
+Proof.
+  intros [[] [] [] [] [] [] [] [] [] [] [] [] []] E; cbn in E; try (exfalso; apply E; reflexivity); eexists; reflexivity.
+Qed.
+
+Theorem C18_lone_date_rejected_whatever_its_sign : forall r,
+  nonzero (r_start r) <> nonzero (r_end r) -> exists n, decide_raw r = CReject n.
+Proof. intros r H. unfold decide_raw. apply lone_date_rejected. exact H. Qed.
+Print Assumptions C18_lone_date_rejected_whatever_its_sign.
